@@ -400,11 +400,11 @@ def execute(sc):
 
 def describe():
     return dict(
-        rule=("Hypothesis-generated histories (sampler class incl. MetropolisChain and EnsembleSampler, d<=3, temperature, "
+        rule=("Hypothesis-generated histories (sampler class incl. MetropolisChain and EnsembleSampler, d<=3 and in 1/12 of them 5-9, temperature, "
               "bounds, target incl. -inf moats, fault switches) of take_step / advance / exchange (foreign point installed "
               "through the real worker loop) on groups of 1-4 samplers built from the SAME start/width/bounds objects and "
               "interleaved at every posterior call by a seeded scheduler; each sampler is then re-run alone on private "
-              "copies. Non-trivial = at least one step and (a group of >=2, or an exchange, or a fired RNG fault); distinct = "
+              "copies; at most one run of 300-5000 steps per history, save/load restarts, read-only inspections. Non-trivial = at least one step and (a group of >=2, or an exchange, or a fired RNG fault); distinct = "
               "distinct scenario digest."),
         real_vs_stub=dict(real=["GibbsChain", "MetropolisChain", "PcaChain", "HamiltonianChain", "EnsembleSampler",
                                 "tempering_process (update_position path)", "Bounds"],
